@@ -1,6 +1,7 @@
 package lungo
 
 import (
+	"errors"
 	"fmt"
 	"sync"
 	"time"
@@ -83,9 +84,25 @@ type Result struct {
 
 // Transaction buffers multiple changes to a catalog.
 type Transaction struct {
-	catalog *Catalog
-	dirty   bool
-	mutex   sync.RWMutex
+	catalog  *Catalog
+	dirty    bool
+	finished bool
+	mutex    sync.RWMutex
+}
+
+// ErrTransactionFinished is returned by the write methods of a transaction that
+// has been committed or aborted.
+var ErrTransactionFinished = errors.New("transaction finished")
+
+// finish marks the transaction as committed or aborted: writes that other
+// users of a shared transaction attempt from now on fail instead of being
+// acknowledged and lost.
+func (t *Transaction) finish() {
+	// acquire write lock
+	t.mutex.Lock()
+	defer t.mutex.Unlock()
+
+	t.finished = true
 }
 
 // NewTransaction creates and returns a new transaction.
@@ -100,6 +117,11 @@ func (t *Transaction) Create(handle Handle) error {
 	// acquire write lock
 	t.mutex.Lock()
 	defer t.mutex.Unlock()
+
+	// check if finished
+	if t.finished {
+		return ErrTransactionFinished
+	}
 
 	// validate handle
 	err := handle.Validate(true)
@@ -161,6 +183,11 @@ func (t *Transaction) Bulk(handle Handle, ops []Operation, ordered bool) ([]Resu
 	// acquire write lock
 	t.mutex.Lock()
 	defer t.mutex.Unlock()
+
+	// check if finished
+	if t.finished {
+		return nil, ErrTransactionFinished
+	}
 
 	// validate handle
 	err := handle.Validate(true)
@@ -266,6 +293,11 @@ func (t *Transaction) Insert(handle Handle, list bsonkit.List, ordered bool) (*R
 	t.mutex.Lock()
 	defer t.mutex.Unlock()
 
+	// check if finished
+	if t.finished {
+		return nil, ErrTransactionFinished
+	}
+
 	// validate handle
 	err := handle.Validate(true)
 	if err != nil {
@@ -367,6 +399,11 @@ func (t *Transaction) replaceChecked(handle Handle, query, sort, repl bsonkit.Do
 	// acquire write lock
 	t.mutex.Lock()
 	defer t.mutex.Unlock()
+
+	// check if finished
+	if t.finished {
+		return nil, ErrTransactionFinished
+	}
 
 	// validate handle
 	err := handle.Validate(true)
@@ -492,6 +529,11 @@ func (t *Transaction) updateChecked(handle Handle, query, sort, update bsonkit.D
 	// acquire write lock
 	t.mutex.Lock()
 	defer t.mutex.Unlock()
+
+	// check if finished
+	if t.finished {
+		return nil, ErrTransactionFinished
+	}
 
 	// validate handle
 	err := handle.Validate(true)
@@ -619,6 +661,11 @@ func (t *Transaction) deleteChecked(handle Handle, query, sort bsonkit.Doc, skip
 	t.mutex.Lock()
 	defer t.mutex.Unlock()
 
+	// check if finished
+	if t.finished {
+		return nil, ErrTransactionFinished
+	}
+
 	// validate handle
 	err := handle.Validate(true)
 	if err != nil {
@@ -704,6 +751,11 @@ func (t *Transaction) Drop(handle Handle) error {
 	// acquire write lock
 	t.mutex.Lock()
 	defer t.mutex.Unlock()
+
+	// check if finished
+	if t.finished {
+		return ErrTransactionFinished
+	}
 
 	// validate handle
 	err := handle.Validate(false)
@@ -1003,6 +1055,11 @@ func (t *Transaction) CreateIndex(handle Handle, name string, config mongokit.In
 	t.mutex.Lock()
 	defer t.mutex.Unlock()
 
+	// check if finished
+	if t.finished {
+		return "", ErrTransactionFinished
+	}
+
 	// validate handle
 	err := handle.Validate(true)
 	if err != nil {
@@ -1045,6 +1102,11 @@ func (t *Transaction) DropIndex(handle Handle, name string) error {
 	// acquire write lock
 	t.mutex.Lock()
 	defer t.mutex.Unlock()
+
+	// check if finished
+	if t.finished {
+		return ErrTransactionFinished
+	}
 
 	// validate handle
 	err := handle.Validate(true)
@@ -1090,6 +1152,11 @@ func (t *Transaction) DropIndexByKey(handle Handle, key bsonkit.Doc) error {
 	// acquire write lock
 	t.mutex.Lock()
 	defer t.mutex.Unlock()
+
+	// check if finished
+	if t.finished {
+		return ErrTransactionFinished
+	}
 
 	// validate handle
 	err := handle.Validate(true)
